@@ -28,7 +28,7 @@ func sizeMessageSet(mi *MessageInfo, p pointer, opts marshalOptions) (size int) 
 		size += messageset.SizeField(num)
 		if fullyLazyExtensions(opts) {
 			// Don't expand the extension, instead use the buffer to calculate size
-			if lb := x.lazyBuffer(); lb != nil {
+			if lb := messageSetLazyBuffer(x, xi); lb != nil {
 				// We got hold of the buffer, so it's still lazy.
 				// Don't count the tag size in the extension buffer, it's already added.
 				size += protowire.SizeTag(messageset.FieldMessage) + len(lb) - xi.tagsize
@@ -90,6 +90,21 @@ func marshalMessageSet(mi *MessageInfo, b []byte, p pointer, opts marshalOptions
 	return b, nil
 }
 
+// messageSetLazyBuffer returns the still-unexpanded wire data of x if it can be
+// re-emitted as the message subfield of a single item: the buffer must hold
+// exactly one record. When several items of one type were merged lazily, the
+// buffer holds several records and the extension has to be expanded instead.
+func messageSetLazyBuffer(x ExtensionField, xi *extensionFieldInfo) []byte {
+	lb := x.lazyBuffer()
+	if len(lb) < xi.tagsize {
+		return nil
+	}
+	if _, n := protowire.ConsumeBytes(lb[xi.tagsize:]); n != len(lb)-xi.tagsize {
+		return nil
+	}
+	return lb
+}
+
 func marshalMessageSetField(mi *MessageInfo, b []byte, x ExtensionField, opts marshalOptions) ([]byte, error) {
 	xi := getExtensionFieldInfo(x.Type())
 	num, _ := protowire.DecodeTag(xi.wiretag)
@@ -97,7 +112,7 @@ func marshalMessageSetField(mi *MessageInfo, b []byte, x ExtensionField, opts ma
 
 	if fullyLazyExtensions(opts) {
 		// Don't expand the extension if it's still in wire format, instead use the buffer content.
-		if lb := x.lazyBuffer(); lb != nil {
+		if lb := messageSetLazyBuffer(x, xi); lb != nil {
 			// The tag inside the lazy buffer is a different tag (the extension
 			// number), but what we need here is the tag for FieldMessage:
 			b = protowire.AppendVarint(b, protowire.EncodeTag(messageset.FieldMessage, protowire.BytesType))
